@@ -7,6 +7,7 @@ package scen
 
 import (
 	"fmt"
+	"strconv"
 	"sync"
 )
 
@@ -23,6 +24,7 @@ type Event struct {
 	OK    bool   `json:"ok"`
 	Inj   bool   `json:"inj"` // the failure was injected by the fault plan
 	Code  int    `json:"code"`
+	Rev   int    `json:"rev"` // store calls: the revision addressed (0 for queries)
 	Field string `json:"field"`
 	Value string `json:"value"`
 	// begin fields
@@ -31,7 +33,9 @@ type Event struct {
 	Vals  string         `json:"vals"`
 	Flags map[string]any `json:"flags"`
 	// end fields
-	Err  string `json:"err"`
+	Err      string `json:"err"`
+	FaultHit string `json:"faulthit"` // end: description of the call the fault plan hit ("" if none)
+	Calls    int    `json:"calls"`    // end: number of visible calls of the operation
 	Info string `json:"info"` // response of uninstall
 	// full abstract state after the event
 	State *State `json:"state"`
@@ -207,7 +211,11 @@ func (r *Recorder) Exit(proc int, kind, verb, id string, ok, injected bool, code
 	ps := r.proc(proc)
 	if ps.active {
 		r.seq++
-		r.events = append(r.events, Event{Seq: r.seq, Proc: proc, Step: ps.step, Ev: "call", Kind: kind, Verb: verb, ID: id, OK: ok, Inj: injected, Code: code, State: r.snap()})
+		rev := 0
+		if kind == "store" {
+			rev, _ = strconv.Atoi(id)
+		}
+		r.events = append(r.events, Event{Seq: r.seq, Proc: proc, Step: ps.step, Ev: "call", Kind: kind, Verb: verb, ID: id, OK: ok, Inj: injected, Code: code, Rev: rev, State: r.snap()})
 	}
 	r.mu.Unlock()
 	r.callMu.Unlock()
